@@ -107,7 +107,13 @@ func Generate(c Case, keep bool) (dir string, f *vfrun.Failure) {
 		rel, _ := filepath.Rel(filepath.Join(work, "h"), dir)
 		self := "vh/" + filepath.ToSlash(rel)
 		// the package has to exist before the first run (a user's project has a file of its own there)
-		_ = os.WriteFile(filepath.Join(dir, "doc.go"), []byte("// Package "+c.Config.Package+" holds the user's own code beside the generated one.\npackage "+c.Config.Package+"\n"), 0o644)
+		if c.Config.SplitModel {
+			self += "/model"
+			_ = os.MkdirAll(filepath.Join(dir, "model"), 0o755)
+			_ = os.WriteFile(filepath.Join(dir, "model", "doc.go"), []byte("// Package model holds the user's own models beside the generated ones.\npackage model\n"), 0o644)
+		} else {
+			_ = os.WriteFile(filepath.Join(dir, "doc.go"), []byte("// Package "+c.Config.Package+" holds the user's own code beside the generated one.\npackage "+c.Config.Package+"\n"), 0o644)
+		}
 		if c.Config.Extra == nil {
 			c.Config.Extra = map[string]string{}
 		}
@@ -271,17 +277,24 @@ func gen(t *rapid.T) Case {
 	hostile := rapid.Bool().Draw(t, "hostile")
 	// a sixth of the projects keep their schema files under one base name in different directories
 	sameBase := rapid.IntRange(0, 5).Draw(t, "samebase") == 0
+	// a third generate their models into a package of their own (the layout of gqlgen's init
+	// template); their schemas may name types like exported identifiers of the exec file
+	splitModel := rapid.IntRange(0, 2).Draw(t, "splitmodel") == 0
 	files := rapid.IntRange(1, 3).Draw(t, "files")
 	if sameBase {
 		files = rapid.IntRange(2, 3).Draw(t, "files-samebase")
 	}
-	s := sdlgen.Generate(t, sdlgen.Options{SameBase: sameBase, Files: files, Roots: true, Hostile: hostile, DeprecatedInputs: true, MaxTypes: 12, ExecDirectives: true})
+	s := sdlgen.Generate(t, sdlgen.Options{SameBase: sameBase, ExecNames: splitModel, Files: files, Roots: true, Hostile: hostile, DeprecatedInputs: true, MaxTypes: 12, ExecDirectives: true})
 	schema, err := loadSchema(s.Files)
 	if err != nil {
 		vfrun.Label("generated-schema-invalid(dropped)")
 		t.Skip("invalid schema: " + err.Error())
 	}
 	c := Case{Files: s.Files, Config: cfggen.Draw(t, "gen", objectFields(schema))}
+	if splitModel {
+		c.Config.SplitModel = true
+		vfrun.Label("models-in-own-package")
+	}
 	if sameBase {
 		c.Config.SchemaGlob = "./**/*.graphqls"
 		vfrun.Label("same-base-name-files:exec:" + c.Config.ExecLayout)
